@@ -52,6 +52,9 @@ type c04Case struct {
 	// OpenReq (server-deadline mode, client-streaming kinds): the caller does not half-close, so the timeout
 	// header is the only way the handler can learn of the deadline
 	OpenReq bool `json:",omitempty"`
+	// HeaderFirst (streaming kinds): the client calls Header() before its first receive (as code that wants the
+	// response headers up front does); the receives that follow are judged as always
+	HeaderFirst bool `json:",omitempty"`
 }
 
 // manualCtx is a context whose end the harness decides: Done is closed by fire(), Err is
@@ -583,6 +586,17 @@ func c04Run(c *c04Case, carrier string, rep int) *c04Obs {
 			time.Sleep(300 * time.Microsecond)
 			ctl.fire("c:while-handler-blocked-in-recv")
 		}
+		if c.HeaderFirst {
+			ctl.at("c:header")
+			var herr error
+			if s := guardFor(stallBound, "Header", func() { _, herr = cs.Header() }); s != "" {
+				mu.Lock()
+				obs.Fault = "Header() did not return within " + stallBound.String() + " (instant fired: " + fmt.Sprint(ctl.hasFired()) + ")\n" + s
+				mu.Unlock()
+				return
+			}
+			record("header: " + errStr(herr))
+		}
 		for j := 0; j < c.NResp+3; j++ {
 			ctl.at(fmt.Sprintf("c:recv:%d", j))
 			m := new(pb.Message)
@@ -919,7 +933,7 @@ func propC04(c c04Case) *Outcome {
 func c04Known(c *c04Case, obs *c04Obs) string { return "" }
 
 // c04Points lists the instants that make sense for a script.
-func c04Points(carrier, kind string, nreq, nresp int, attitude string) []string {
+func c04Points(carrier, kind string, nreq, nresp int, attitude string, headerFirst ...bool) []string {
 	var ps []string
 	if kind == kUnary {
 		ps = []string{"c:before-invoke", "h:entry", "h:return"}
@@ -942,6 +956,9 @@ func c04Points(carrier, kind string, nreq, nresp int, attitude string) []string 
 		ps = append(ps, fmt.Sprintf("h:recv:%d", n)) // the receive that sees the end of the request stream
 	}
 	ps = append(ps, "c:close")
+	if len(headerFirst) > 0 && headerFirst[0] {
+		ps = append(ps, "c:header")
+	}
 	for j := 0; j < nresp; j++ {
 		ps = append(ps, fmt.Sprintf("c:recv:%d", j), fmt.Sprintf("h:send:%d", j))
 	}
@@ -987,7 +1004,8 @@ func genC04(t *rapid.T) c04Case {
 	if clientStreaming(c.Kind) && c.Carrier == cInproc && rapid.IntRange(0, 9).Draw(t, "extra") == 0 {
 		c.Attitude = "extra-recv"
 	}
-	ps := c04Points(c.Carrier, c.Kind, c.NReq, c.NResp, c.Attitude)
+	c.HeaderFirst = c.Kind != kUnary && c.Attitude != "extra-recv" && rapid.IntRange(0, 3).Draw(t, "headerfirst") == 0
+	ps := c04Points(c.Carrier, c.Kind, c.NReq, c.NResp, c.Attitude, c.HeaderFirst)
 	c.Point = rapid.SampledFrom(ps).Draw(t, "point")
 	if c.Attitude == "extra-recv" {
 		c.Point = "c:while-handler-blocked-in-recv"
